@@ -16,8 +16,9 @@ Output in --out:
                 action names of spec/Durability.tla (act, unit, op = in-flight step)
   points.json   the crash points: one per state-changing data-directory syscall after
                 the OPEN marker (and one for the state at OPEN), with the image number,
-                the action it follows and the obligations that hold while the image is
-                the directory state: list of [acked, inflight] (inflight = 0: none)
+                the action it follows, per unit the last action that changed it (`last`)
+                and the obligations that hold while the image is the directory state:
+                list of [acked, inflight] (inflight = 0: none)
   img/<n>/      the directory image of crash point n (omitted with --no-images)
 
 Only paths below --root are reconstructed. `.data` files (boltdb attribute stores, out of
@@ -225,13 +226,15 @@ def main():
         nonlocal npoint
         p = {'n': npoint, 'event': ev['i'] if ev else -1, 'after': ev['act'] if ev else 'Open',
              'unit': ev.get('unit', '') if ev else '', 'nth': ev.get('nth', 0) if ev else 0,
-             'inflight_at': inflight, 'op': inflight_op, 'obligations': [[acked, inflight]]}
+             'inflight_at': inflight, 'op': inflight_op, 'obligations': [[acked, inflight]],
+             'last': dict(last_by_unit)}
         points.append(p)
         if not a.no_images and (a.only is None or a.only == npoint):
             copy_image(cur, os.path.join(a.out, 'img', str(npoint)))
         npoint += 1
 
     nth_in_op = {}
+    last_by_unit = {}   # unit -> [act, nth within the step, step] of the last state-changing syscall on it
 
     for pid, name, args, ret, tail in parse(a.log):
         if ret == '?' or int(ret) < 0:
@@ -244,8 +247,10 @@ def main():
                 raise SystemExit("strace2fs: bad write args: %.200s" % args)
             fd, path, body, trunc = int(m.group(1)), unhex_str(m.group(2)), m.group(3), m.group(4)
             n = int(ret)
-            if fd == 2 or path.startswith('/dev/') or path.startswith('pipe:'):
-                text = unhex_bytes(body).decode('utf-8', 'replace')
+            rel = fs.rel(path) if path.startswith('/') else None
+            if rel is None:
+                # not a data-directory file: a marker on the driver's stderr, or irrelevant
+                text = unhex_bytes(body[:400]).decode('utf-8', 'replace') if body.startswith('\\x43\\x30\\x39\\x4d') else ''
                 if text.startswith('C09MARK '):
                     w = text.strip().split(' ')
                     ev = {'kind': 'mark', 'act': w[1], 'text': text.strip()}
@@ -266,9 +271,6 @@ def main():
                         closed = True
                     events.append(dict(ev, i=len(events), pid=pid))
                     obligations_add()
-                continue
-            rel = fs.rel(path)
-            if rel is None:
                 continue
             if trunc:
                 raise SystemExit("strace2fs: write payload truncated by strace -s (%d bytes to %s)" % (n, rel))
@@ -439,6 +441,7 @@ def main():
             ev['nth'] = nth_in_op[key]
         events.append(ev)
         if opened and mutating:
+            last_by_unit[ev.get('unit', '')] = [ev['act'], ev.get('nth', 0), inflight]
             new_point(ev)
 
     if not opened:
